@@ -485,6 +485,10 @@ def compile_augassign_expression(compiler, expr, root, target, values):
 
     op = a_ops[root][0]
     target = compiler._storeize(target, compiler.compile(target))
+    if not isinstance(target, (ast.Name, ast.Attribute, ast.Subscript)):
+        compiler._syntax_error(
+            expr[1], "illegal target for augmented assignment"
+        )
     ret = compiler.compile(values[0])
     return ret + asty.AugAssign(expr, target=target, value=ret.force_expr, op=op())
 
